@@ -299,7 +299,8 @@ def rule_push_before_descend(col, R, rid, names, sfx=""):
                 if not is_call_to(ev, b):
                     continue
                 ncalls += 1
-                pushed = any(is_call_to(e, R.fn["push_at"]) and e.args[1] == Pi for e in evs[:k])
+                # (the node handed to push_at may travel in a one-field newtype, like the worker's own: compare position by position)
+                pushed = any(is_call_to(e, R.fn["push_at"]) and (e.args[1] == Pi or Pi in [x for x in VA(R.fn["push_at"], e)[1:2]]) for e in evs[:k])
                 key = "%s|recursive-call|node=%s" % (fk(b), tstr(VA(b, ev)[node]))
                 if pushed:
                     col.ok(rid + sfx, b.loc(ev.bb), key, "push_at(i) precedes the descent")
